@@ -282,6 +282,7 @@ def arbitrary(rep, dec, lk):
             dom = bit.Bit()
             if num == '>6':
                 dom.lin_lb['n'] = 7
+                dom.unbounded.add('n')
                 nv = Lin.sym('n', 64)
                 cap = 7      # the smallest num in this class
             else:
@@ -525,6 +526,7 @@ def lead_loop(ctx, lk):
         roles = {}
 
         NUM, O, L = Lin.sym('num', 64), Lin.sym('o', 64), Lin.sym('L', 64)
+        dom.unbounded |= {'num', 'o', 'L'}
         loops_ = fn.loops()
         hphis = [i for i in loops_[0][0].instrs if i.op == 'phi'] if len(loops_) == 1 else []
         indexed = len(hphis) == 2 and not any(p_.ty.is_ptr for p_ in hphis)
